@@ -63,25 +63,32 @@ inductive IDep
 structure INode where
   val : Nat
   reads : List IDep          -- direct semantic dependencies, in order of first read
-  checkedAt : Nat
+  checkedAt : Nat            -- clock of the last run / successful check
   valChangedAt : Nat
+  checkedOp : Nat            -- index of the operation of the last run / successful check
+  ranOp : Nat                -- index of the operation of the last run
   deriving Repr
 
 structure Ideal where
   clock : Nat
+  opn : Nat                    -- index of the current operation
   σ : Srcs
   chg : List (Key × Nat)       -- clock of the last observable change of a key (insert, new value, removal)
-  eqw : List (Key × Nat)       -- clock of the last equal-value write
+  eqw : List (Key × Nat)       -- operation index of the last equal-value write
+  trace : List Key             -- every source key read since this was last cleared
   nodes : List (NodeId × INode)
   ran : List NodeId            -- executed during the current operation
   stack : List (NodeId × List IDep)   -- reads of the bodies being evaluated (reversed)
   tainted : Bool               -- a call panicked: the property makes no claim afterwards
 
-def Ideal.init : Ideal := ⟨1, Srcs.init, [], [], [], [], [], false⟩
+def Ideal.init : Ideal := ⟨1, 0, Srcs.init, [], [], [], [], [], [], false⟩
 
 def chgOf (I : Ideal) (k : Key) : Nat := (alookup I.chg k).getD 0
 
 def Ideal.read (I : Ideal) (d : IDep) : Ideal :=
+  let I := match d with
+    | .source k => if I.trace.contains k then I else { I with trace := k :: I.trace }
+    | .node _ => I
   match I.stack with
   | [] => I
   | (id, rs) :: rest => { I with stack := (id, if rs.contains d then rs else d :: rs) :: rest }
@@ -155,7 +162,7 @@ def visit : Nat → Prog → Ideal → NodeId → Ideal × Res Nat
         let vc := match old with
           | some o => if o.val = v then o.valChangedAt else I.clock
           | none => I.clock
-        ({ I with stack := I.stack.drop 1, nodes := ainsert I.nodes id ⟨v, reads, I.clock, vc⟩ }, .ok v)
+        ({ I with stack := I.stack.drop 1, nodes := ainsert I.nodes id ⟨v, reads, I.clock, vc, I.opn, I.opn⟩ }, .ok v)
       | (I, .panic p) => ({ I with stack := I.stack.drop 1 }, .panic p)
     match alookup I.nodes id with
     | none => runNode I none
@@ -172,13 +179,13 @@ def visit : Nat → Prog → Ideal → NodeId → Ideal × Res Nat
         match ianyDep chk nd.checkedAt nd.reads I with
         | (I, .panic p) => (I, .panic p)
         | (I, .ok true) => runNode I (some nd)
-        | (I, .ok false) => ({ I with nodes := ainsert I.nodes id { nd with checkedAt := I.clock } }, .ok nd.val)
+        | (I, .ok false) => ({ I with nodes := ainsert I.nodes id { nd with checkedAt := I.clock, checkedOp := I.opn } }, .ok nd.val)
 
 /-- a source operation: advance the clock when something observable changed -/
 def Ideal.applySrc (I : Ideal) (op : Op) : Ideal :=
   let (σ', changed, eq) := I.σ.apply op
   if changed.isEmpty then
-    { I with σ := σ', eqw := eq.foldl (fun m k => ainsert m k I.clock) I.eqw }
+    { I with σ := σ', eqw := eq.foldl (fun m k => ainsert m k I.opn) I.eqw }
   else
     let c := I.clock + 1
     { I with σ := σ', clock := c, chg := changed.foldl (fun m k => ainsert m k c) I.chg }
@@ -216,12 +223,15 @@ structure GcSpec where
   retained : List (NodeId × Nat)
   guards : List NodeId
   refs : List NodeId
-  /-- set by `gc`: ids promised to be served without re-execution, with the value they had; cleared
-  by the next operation that changes a source -/
-  promised : List (NodeId × Nat)
-  lastVal : List (NodeId × Nat)
+  /-- set by `gc`: ids promised to be served without re-execution (roots called since the last
+  source change, and what they depend on), with the value they had when known; cleared by the next
+  operation that changes a source -/
+  promised : List (NodeId × Option Nat)
+  /-- value and operation index of the last successful top-level call -/
+  lastVal : List (NodeId × Nat × Nat)
+  lastChangeOp : Nat
 
-def GcSpec.init (cap : Nat) : GcSpec := ⟨cap, [], [], [], [], [], []⟩
+def GcSpec.init (cap : Nat) : GcSpec := ⟨cap, [], [], [], [], [], [], 0⟩
 
 def GcSpec.roots (g : GcSpec) : List NodeId := g.recent.take g.cap ++ g.retained.map (·.1)
 
